@@ -92,6 +92,15 @@ Script_wake == << CompleteP("p", RESOLVED, None, FALSE), CompleteP("p", REJECTED
                   Read("p"), CompleteP("r", RESOLVED, None, FALSE), Subscribe("p", "s2", 20) >>
 Times_wake == {2}
 
+\* --- notify: one dispatch cycle meets a resume task that runs out between the cycle's two looks at the clock and, after
+\*     it in the cycle's order, a notification: the notification still carries its own promise
+Setup_notify == << Create("a", 20, None, FALSE, NoTags), Create("p", 20, None, FALSE, NoTags), Create("q", 20, None, FALSE, NoTags),
+                   Callback("p", "a", 4), Subscribe("q", "s", 20),
+                   CompleteP("p", RESOLVED, None, FALSE), CompleteP("q", RESOLVED, None, FALSE) >>
+DB_notify == Build(EmptyDB, Setup_notify)
+Script_notify == << Read("q"), Read("a") >>
+Times_notify == {3, 4}
+
 \* --- collide: ids containing ":" make two registrations derive the same task id; the completion of the
 \*     second one meets the task of the first (the store refuses it: the registration must not be lost)
 Setup_collide == << Create("a", 20, None, FALSE, NoTags), Create("a:b", 20, None, FALSE, NoTags), Create("b:c", 20, None, FALSE, NoTags),
